@@ -37,7 +37,7 @@ from operon_ai.state.metabolism import ATP_Store
 ID = "C08"
 LEVEL = "exploration"
 ENGINE = "seq+threads"
-RUNS = {"quick": 30_000, "thorough": 1_500_000}
+RUNS = {"quick": 26_000, "thorough": 1_300_000}
 THREADS_EVERY = 5      # every 5th run index is a threads plan
 RULE = ("seeded histories of 2-8 requests (quick; up to 14 thorough) whose outcome is scripted through the two agents' "
         "verdicts {success, intentional block, executor FAILURE verdict, raising agent, UNKNOWN/DEFER mismatch, repeated "
@@ -46,7 +46,9 @@ RULE = ("seeded histories of 2-8 requests (quick; up to 14 thorough) whose outco
         "1/30/60 s, cache on/off, six gate logics, breaker enabled/disabled; generation is biased to trip the breaker "
         "first and to place clock moves and probes inside the open period; every 5th run is a threads plan: a sequential "
         "pre-phase (trip the breaker / move the clock), then 2-3 tasks x 1-2 requests overlapping on the one loop under "
-        "seeded schedules (serial, uniform, sticky, pct, lock-biased; decision at every source line of loops.py and every "
+        "seeded schedules (serial, uniform, sticky, pct, lock-biased; explicit one- / two-pre-emption schedules; 35 % "
+        "lock-boundary schedules that pre-empt a task right before its j-th acquisition of the loop's lock, found by a "
+        "serial dry run; decision at every source line of loops.py and every "
         "lock operation), then a sequential continuation after quiescence; non-trivial = a history in which the breaker "
         "left CLOSED (threads plans: additionally at least one pre-emption inside run()); distinct = distinct "
         "(configuration, operation lists).  In every family the seed also draws recording / raising on_block and on_permit "
@@ -91,7 +93,7 @@ EXPECT_PROBES = ("opened", "half_open_seen", "probe_success_closed", "probe_fail
                  "overlap_all_failing_judged", "overlap_certainly_open_judged", "post_continuation_request",
                  "preempted_while_holding_a_lock", "observer_raised", "request_in_flight_over_others",
                  "request_spans_clock_move", "last_failure_pinned_after_clock_move", "request_after_inconclusive_probe",
-                 "earlier_last_failure_candidates_pruned")
+                 "earlier_last_failure_candidates_pruned", "lock_boundary_schedule")
 
 EXEC_PERMITS = ("EXECUTE", "PERMIT")
 EXC = {"RuntimeError": RuntimeError, "ValueError": ValueError, "TimeoutError": TimeoutError, "KeyError": KeyError}
@@ -152,15 +154,27 @@ STRATEGIES = [(1, {"kind": "serial"}), (2, {"kind": "uniform"}), (2, {"kind": "s
 STEPS_PER_REQUEST = 60
 
 
+LOCK_BOUNDARY_SHARE = 0.35
+
+
 def _few_preemptions(rng, plan, share=0.5, span=80):
     """A share (half) of the threads plans carry an explicit schedule instead of a seeded strategy: task a runs, is
     pre-empted at its n-th decision point in favour of task b, which runs on (to completion unless pre-empted in turn
     after m more decision points).  Most check-then-act races need exactly one or two pre-emptions at the right line;
     drawing the line uniformly reaches each of them far more often than a random walk over all decisions."""
+    nt = len(plan["tasks"])
+    if rng.random() < LOCK_BOUNDARY_SHARE:
+        # pre-empt task a right before one of its acquisitions of the loop's lock (the j-th), run b from there: the place
+        # where every "looked at shared state, then took the lock" race lives.  The positions are not known in advance:
+        # _run_threads finds them with a serial dry run the first time and stores the schedule in plan["switches"].
+        a = rng.randrange(nt)
+        b = rng.choice([t for t in range(nt) if t != a])
+        plan["config"]["strategy"] = {"kind": "lock_boundary", "a": a, "b": b, "j": rng.randrange(12)}
+        plan.pop("switches", None)
+        return
     x = rng.random()
     if x >= share:
         return
-    nt = len(plan["tasks"])
     a = rng.randrange(nt)
     b = rng.choice([t for t in range(nt) if t != a])
     sw = [[0, a]] if a != 0 else []
@@ -840,8 +854,83 @@ def run(plan, k):
         k.nontrivial = True
 
 
+class _LockProbe:
+    """Dry run only: stands in front of the loop's lock and notes at which decision index task `who` asks for it."""
+
+    def __init__(self, inner, sched, who, out):
+        self.inner, self.sched, self.who, self.out = inner, sched, who, out
+
+    def acquire(self, *a, **kw):
+        cur = self.sched.cur
+        if cur is not None and cur.name == self.who:
+            self.out.append(self.sched.pos)
+        return self.inner.acquire(*a, **kw)
+
+    def release(self):
+        return self.inner.release()
+
+    def __enter__(self):
+        self.acquire()
+        return self
+
+    def __exit__(self, *a):
+        self.release()
+        return False
+
+
+def _lock_boundary_schedule(plan):
+    """Serial dry run (task a first) on a scratch kernel: where does a ask for the loop's lock?  Returns the schedule
+    'a runs, is pre-empted right before its j-th acquisition, b runs on'.  Nothing of the dry run reaches the real log."""
+    from opsim import core as _core
+    strat = plan["config"]["strategy"]
+    a, b = strat["a"], strat["b"]
+    if not (0 <= a < len(plan["tasks"]) and 0 <= b < len(plan["tasks"])) or a == b:
+        return []
+    head = [[0, a]] if a != 0 else []
+    real_k = _core.current()
+    t0, cov0, reads0 = CLOCK.now, CLOCK.covered, CLOCK.reads
+    k2 = _core.Kernel(ID, plan)
+    _core.set_current(k2)
+    positions = []
+    try:
+        sched = Sched(k2, {"kind": "replay"}, switches=head, scope=SCOPE, max_steps=40_000)
+        w = World(plan, k2, sched)
+        for op in plan.get("pre") or []:
+            if not w.seq_op(op, None):
+                return head
+        w.loop._lock = _LockProbe(w.loop._lock, sched, f"t{a}", positions)
+
+        def body(ops):
+            def f():
+                for op in ops:
+                    if op[0] == "clock":
+                        if op[1] == "adv" and op[2] > 0:
+                            set_clock(CLOCK.now + op[2])
+                            w.clock_moved()
+                    elif op[0] == "reset":
+                        call(w.loop.reset_circuit_breaker)
+                    else:
+                        w.invoke(op)
+            return f
+
+        for ti, ops in enumerate(plan["tasks"]):
+            sched.spawn(body(ops), name=f"t{ti}")
+        sched.run()
+    except HarnessError:
+        return head
+    finally:
+        _core.set_current(real_k)
+        CLOCK.now, CLOCK.covered, CLOCK.reads = t0, cov0, reads0
+    if not positions:
+        return head
+    return head + [[positions[strat.get("j", 0) % len(positions)], b]]
+
+
 def _run_threads(plan, k):
     cfg = plan["config"]
+    if (cfg.get("strategy") or {}).get("kind") == "lock_boundary" and plan.get("switches") is None:
+        plan["switches"] = _lock_boundary_schedule(plan)
+        k.probe("lock_boundary_schedule")
     sched = Sched(k, cfg.get("strategy"), switches=plan.get("switches"),
                   rng=derive(plan.get("_seedpath", "replay"), "sched"), scope=SCOPE, max_steps=40_000)
     w = World(plan, k, sched)
